@@ -18,13 +18,16 @@ ASSUMPTIONS = ["floating point rounding below 1e-9 is not observable",
                "degree_reduction is modelled as repaired by fixes/C08-degree-reduction-backward-loop.diff"]
 THEOREM_NOTES = ("see coq/Props/C08.v: [F] elevation_preserves_bezier and reduction_inverts_elevation exhaust degrees 1..8 x counts 1..4 "
                  "(field on a symbolic polygon) for points of every dimension via the coordinate-wise lift [G]; end points, rejection [G]")
-LEVEL_TEXT = ("proof: the property's own finite quantifier (degree 1..8, count 1..4) is exhausted for all real control values, all curve "
-              "parameters and every point dimension; end points and rejection are proved for all degrees/counts; general degree/count "
-              "(Vandermonde) is not proved (C08_elevation_preserves_bezier_full stays a Definition)")
+LEVEL_TEXT = ("proof: for EVERY degree p >= 1 and EVERY elevation count t >= 1 (general theorems, Proofs/DegreeGeneral.v: binomial theorem on "
+              "(x + (1-x))^t, sum re-indexing) the elevated polygon of the model defines exactly the same Bezier curve, for all real control values "
+              "and points of any dimension; t reductions of the (repaired) degree_reduction return the original polygon for every p, t (loop "
+              "invariant of the two sweeps + elevation by t = t elevations by one); the model's binomial coefficient is k!/(i!(k-i)!); end points "
+              "and the rejection rules hold for all inputs.  The property's own finite range (degree 1..8, count 1..4) is additionally exhausted "
+              "by field as an independent cross-check")
 LEVEL_NOTE = ("theorems are about the hand-written Gallina model of helpers.degree_elevation/degree_reduction (reduction as repaired), tied "
               "to the Python code by the sampled correspondence check; the Bernstein specification is stated in Coq (bernstein/bezier), its "
               "link to the B-spline evaluator on a Bezier knot vector is only observed through operations.degree_operations cases")
-TECHNIQUE = "Coq 8.16: field on symbolic polygons per (degree,count); Paramcoq free theorem for the coordinate-wise lift; exact Fraction oracle via power-basis conversion"
+TECHNIQUE = "Coq 8.16: general induction / finite-sum algebra (binomial theorem) for all degrees and counts; field on symbolic polygons per (degree,count) as cross-check; Paramcoq free theorem for the coordinate-wise lift; exact Fraction oracle via power-basis conversion"
 
 
 # ------------------------------------------------------------------ exact oracle helpers
